@@ -37,6 +37,8 @@ def handle(req):
     opts = req['opts']
     ans = {'texts': [], 'hashseed': os.environ.get('PYTHONHASHSEED')}
     first_set = []
+    for prc in req.get('primes') or []:
+        dump(values.build(prc), dumper, opts)          # the dump history of this interpreter
     for n, perm in enumerate(req['perms']):
         x = values.build(req['recipe'], perm=perm)
         if n == 0:
@@ -170,17 +172,38 @@ def _key_order(v):
 
 
 def main():
+    """Every request is served by a child forked from this interpreter, which has imported yaml and made
+    no call: each case starts from the same pristine library state (its dump history is part of the
+    request), so a case is replayable on its own."""
     out = sys.stdout
     for line in sys.stdin:
         line = line.strip()
         if not line:
             continue
-        try:
-            ans = handle(json.loads(line))
-        except BaseException:
-            import traceback
-            ans = {'harness_error': traceback.format_exc()}
-        out.write(json.dumps(ans) + '\n')
+        rfd, wfd = os.pipe()
+        pid = os.fork()
+        if pid == 0:
+            code = 0
+            try:
+                os.close(rfd)
+                try:
+                    ans = handle(json.loads(line))
+                except BaseException:
+                    import traceback
+                    ans = {'harness_error': traceback.format_exc()}
+                with os.fdopen(wfd, 'w') as f:
+                    f.write(json.dumps(ans))
+            except BaseException:
+                code = 3
+            finally:
+                os._exit(code)
+        os.close(wfd)
+        with os.fdopen(rfd, 'r') as f:
+            data = f.read()
+        _, status = os.waitpid(pid, 0)
+        if not data:
+            data = json.dumps({'crash': status})
+        out.write(data + '\n')
         out.flush()
 
 
